@@ -21,3 +21,29 @@ impl RwsClone for char {
 pub uninterp spec fn is_control_c(c: char) -> bool;  // char::is_control (Unicode Cc)
 pub assume_specification[ char::is_control ](c: char) -> (r: bool)
     ensures r == is_control_c(c);
+
+impl<T: Clone> RwsClone for Option<T> {
+    #[verifier::external_body]
+    fn rws_clone(&self) -> Option<T> { self.clone() }
+}
+pub trait RwsUrlPathStr {
+    spec fn sv_up(&self) -> Seq<char>;
+    // str::find(char): the byte offset of the first occurrence - a character boundary
+    fn rws_find(&self, c: char) -> (r: Option<usize>)
+        ensures r.is_some() ==> exists|k: int| 0 <= k < self.sv_up().len() && #[trigger] at_boundary(self.sv_up(), k, r.unwrap() as int) && self.sv_up()[k] == c;
+    fn rws_strip_prefix<'a>(&'a self, p: &str) -> (r: Option<&'a str>)
+        ensures r.is_some() ==> self.sv_up() == p@ + r.unwrap()@;
+    fn rws_replacen(&self, p: &str, to: &str, n: usize) -> (r: String);
+    fn rws_chars_skip_collect(&self, n: usize) -> (r: String);
+}
+impl RwsUrlPathStr for String {
+    open spec fn sv_up(&self) -> Seq<char> { self@ }
+    #[verifier::external_body]
+    fn rws_find(&self, c: char) -> Option<usize> { self.find(c) }
+    #[verifier::external_body]
+    fn rws_strip_prefix<'a>(&'a self, p: &str) -> Option<&'a str> { self.strip_prefix(p) }
+    #[verifier::external_body]
+    fn rws_replacen(&self, p: &str, to: &str, n: usize) -> String { self.replacen(p, to, n) }
+    #[verifier::external_body]
+    fn rws_chars_skip_collect(&self, n: usize) -> String { self.chars().skip(n).collect() }
+}
